@@ -415,14 +415,15 @@ def _(p):
     import pandas
     from formulaic import Formula, model_matrix
 
-    LEVELS = {"A": ["p", "q"], "B": ["r", "s", "t"], "D": ["u", "v"], "E": ["w"]}
+    LEVELS = {"A": ["p", "q"], "B": ["r", "s", "t"], "D": ["u", "v"], "E": ["w"], "Z": [0, 1, 2]}
     results = []
     for point in (0, 1):
         rows = [(a, b, c) for a in LEVELS["A"] for b in LEVELS["B"] for c in LEVELS["D"]] * 3
         n = len(rows)
         num = [((37 * (i + 1) + 101 * point) % 53) / 4.0 + 0.25 + point for i in range(n)]
         df = pandas.DataFrame({"A": pandas.Categorical([r[0] for r in rows], categories=LEVELS["A"]), "B": pandas.Categorical([r[1] for r in rows], categories=LEVELS["B"]),
-                               "D": pandas.Categorical([r[2] for r in rows], categories=LEVELS["D"]), "E": pandas.Categorical(["w"] * n, categories=LEVELS["E"]), "a": numpy.array(num)})
+                               "D": pandas.Categorical([r[2] for r in rows], categories=LEVELS["D"]), "E": pandas.Categorical(["w"] * n, categories=LEVELS["E"]),
+                               "Z": pandas.Categorical([(i * 5 + i // 3) % 3 for i in range(n)], categories=LEVELS["Z"]), "a": numpy.array(num)})
         tl = list(p["terms"])
         if p.get("contrast"):
             tl = [":".join(f"C({f}, contr.{p['contrast']})" if f in LEVELS else f for f in t.split(":")) for t in tl]
@@ -536,6 +537,8 @@ def _(p):
     dtrain = mc.full_frame(_A_TRAIN, _B_TRAIN)
     out = p["output"]
     spec = model_matrix(p["formula"], dtrain, output=out).model_spec
+    if p.get("via_subset"):
+        spec = spec.subset([t for t in spec.formula if repr(t) != "1"] or list(spec.formula))
     labels0 = list(spec.column_names)
     d2 = dtrain.copy()
     rows2 = list({"A": mc.A_ROWS, "B": mc.B_ROWS}[p["var"]])
